@@ -73,15 +73,17 @@ def make_grid(spec):
 def grid_spec(rng, tier):
     thorough = tier != "quick"
     r = rng.random()
-    if thorough and r < 0.35:
-        # 3-D (thorough tier only)
+    if r < (0.35 if thorough else 0.1):
+        # 3-D (larger grids in the thorough tier only)
         if rng.random() < 0.55:
-            n = rng.choice([[1, 1, 1], [2, 1, 1], [2, 2, 1], [2, 2, 2], [3, 2, 1], [1, 2, 3]])
+            n = rng.choice([[1, 1, 1], [2, 1, 1], [2, 2, 1], [2, 2, 2], [3, 2, 1], [1, 2, 3]]
+                           if thorough else [[1, 1, 1], [2, 1, 1], [1, 1, 2]])
             spec = {"kind": "cart", "n": n}
             if rng.random() < 0.3:
                 spec["L"] = [rng.choice([1.0, 2.0, 0.5]) * k for k in n]
         else:
-            spec = {"kind": "tet", "n": rng.choice([[1, 1, 1], [2, 1, 1], [1, 2, 1], [1, 1, 2]])}
+            spec = {"kind": "tet", "n": rng.choice([[1, 1, 1], [2, 1, 1], [1, 2, 1], [1, 1, 2]]
+                                                   if thorough else [[1, 1, 1]])}
         dim = 3
     else:
         dim = 2
@@ -139,15 +141,94 @@ def to_dense(ent, shape):
     return a
 
 
+class LocalCapture:
+    """Capture, by monkey-patching module functions from the harness (no source hook), what
+    Mpfa._flux_discretization hands to / gets from its helpers: the grid and tensor it
+    works on (after map_grid in 2-D), the matrix of all local equations before row scaling
+    (grad_eqs) and the boundary right-hand side."""
+
+    def __enter__(self):
+        from porepy.numerics.fv import _fvutils
+        self.fv = _fvutils
+        self.got = {}
+        self.calls = 0
+        self.o1 = _fvutils.scalar_tensor_vector_prod
+        self.o2 = pp.matrix_operations.diagonal_scaling_matrix
+        self.o3 = pp.Mpfa._create_bound_rhs
+        cap = self
+
+        def w1(sd, k, st):
+            cap.calls += 1
+            cap.got.setdefault("sd", sd)
+            cap.got.setdefault("k", k)
+            return cap.o1(sd, k, st)
+
+        def w2(mat):
+            cap.got.setdefault("grad_eqs", mat.copy())
+            return cap.o2(mat)
+
+        def w3(this, bnd, be, st, sgn, sd, nflux, nrob, npr, subface_rhs):
+            out = cap.o3(this, bnd, be, st, sgn, sd, nflux, nrob, npr, subface_rhs)
+            cap.got.setdefault("rhs", dict(be=be, st=st, nflux=nflux, nrob=nrob, npr=npr,
+                                           subface_rhs=subface_rhs, rhs_bound=out.copy()))
+            return out
+
+        _fvutils.scalar_tensor_vector_prod = w1
+        pp.matrix_operations.diagonal_scaling_matrix = w2
+        pp.Mpfa._create_bound_rhs = w3
+        return self
+
+    def __exit__(self, *a):
+        self.fv.scalar_tensor_vector_prod = self.o1
+        pp.matrix_operations.diagonal_scaling_matrix = self.o2
+        pp.Mpfa._create_bound_rhs = self.o3
+
+    def local_systems(self, max_nnz=1500):
+        """The captured local equations A g = RC p_cells + RB bdata_faces, or None."""
+        g = self.got
+        if self.calls != 1 or not {"sd", "k", "grad_eqs", "rhs"} <= set(g):
+            return None
+        sd, r = g["sd"], g["rhs"]
+        st, be = r["st"], r["be"]
+        if r["subface_rhs"] or r["nrob"] != 0:
+            return None
+        A = sps.csr_matrix(g["grad_eqs"])
+        if A.shape[0] != A.shape[1] or A.nnz > max_nnz:
+            return None
+        nc, nf, nd = sd.num_cells, sd.num_faces, sd.dim
+        # cell-centre contribution moved to the right-hand side (mpfa.py: rhs_cells)
+        sgn_all = np.asarray(sd.cell_faces[st.fno, st.cno]).ravel()
+        pr_cont_cell_all = sps.coo_matrix((sgn_all, (st.subfno, st.cno))).tocsr()
+        pr_cont_cell = be.exclude_neumann_robin(pr_cont_cell_all)
+        rc = -sps.vstack([sps.csr_matrix((r["nflux"], nc)), pr_cont_cell])
+        # face values are handed to every sub-face of the face (bound_flux = hf2f * . * hf2f.T)
+        hf2f = sps.coo_matrix((np.ones(st.subfno_unique.size), (st.fno_unique, st.subfno_unique)),
+                              shape=(nf, st.num_subfno_unique))
+        rb = sps.csr_matrix(r["rhs_bound"]) @ hf2f.T
+        if rc.shape[0] != A.shape[0] or rb.shape != (A.shape[0], nf):
+            return None
+
+        def pad(a):
+            a = np.asarray(a, dtype=float)
+            return np.vstack([a, np.zeros((3 - a.shape[0], a.shape[1]))]) if a.shape[0] < 3 else a
+
+        K = np.eye(3)
+        K[:nd, :nd] = g["k"].values[:nd, :nd, 0]
+        return {"nd": int(nd), "nrows": int(A.shape[0]), "A": canon(A), "RC": canon(rc),
+                "RB": canon(rb), "cc": pad(sd.cell_centers).T.tolist(),
+                "fc": pad(sd.face_centers).T.tolist(), "nr": pad(sd.face_normals).T.tolist(),
+                "K": K.tolist()}
+
+
 class C11(Prop):
     id = "C11"
     props_file = "Props/C11.v"
     preamble = ("From Coq Require Import List ZArith QArith.\nImport ListNotations.\n"
                 "From PP Require Import Model.C11.\nLocal Open Scope Z_scope.\n")
-    n_cases = (28, 320)
+    n_cases = (24, 160)
     design_ref = "DESIGN.md §5 C11 (certificate tie K, level P-method)"
     level_text = (
-        "METHOD-LEVEL Coq theorems plus a per-instance certificate check, not a proof about the "
+        "METHOD-LEVEL Coq theorems plus per-instance certificate checks, not a proof about the "
         "vectorised Python code. (A) Interaction-region model over the reals, any dimension, any "
         "number of sub-cells and sub-faces: the local MPFA-O equations (flux continuity, pressure "
         "continuity at continuity points, Dirichlet and Neumann sub-faces) as sparse linear rows over "
@@ -159,30 +240,40 @@ class C11(Prop):
         "residual of 'flux*p_cells + bound_flux*bdata = -n.K a' and of the boundary pressure "
         "reconstruction is linear in the coefficients (b, a) of the field, so a bound/equality "
         "established for the four basis fields 1, x, y, z extends to EVERY linear field on that "
-        "instance (C11_linear_extension*). The tie is translation validation per run: the four REAL "
-        "matrices of pp.Mpfa on each generated grid are converted exactly (every binary64 is a dyadic "
-        "rational) and Coq evaluates the basis-field residuals on every face (band 1e-9 relative), "
-        "together with symmetry/positive definiteness of K.")
+        "instance (C11_linear_extension*). The tie is translation validation per run. Certificate (i): "
+        "the four REAL matrices of pp.Mpfa on each generated grid are converted exactly (every binary64 "
+        "is a dyadic rational) and Coq evaluates the basis-field residuals on every face (band 1e-9 "
+        "relative), together with symmetry/positive definiteness of K. Certificate (ii), on half of the "
+        "cases: the matrix of ALL local equations the code assembled (grad_eqs, captured by "
+        "monkey-patching) applied to the constant gradient of each basis field equals, row by row, the "
+        "right-hand side the code builds from that field's cell pressures and boundary data, i.e. the "
+        "hypothesis 'the linear field solves the local equations' is validated on the actual rows "
+        "(C11_local_rows_linear_extension extends it to every linear field).")
     level_note = (
         "Not proved: that mpfa.py assembles exactly the local equations of model (A) (SubcellTopology "
-        "bookkeeping, block inversion, row scaling, hf2f averaging, sub-problem splitting) — that link "
-        "is covered only through the end result, i.e. by certificate (i) on the real matrices of the "
-        "generated instances; the local systems themselves are not captured (certificate (ii) of the "
-        "design is not implemented). Invertibility of the local systems is a hypothesis of "
-        "C11_unique_exact, not proved from SPD K. The definitions are field-polymorphic; theorems are "
-        "proved at R and the certificate is executed with exact dyadic arithmetic on (mantissa, exponent) "
-        "pairs (no division occurs), cross-checked in every case against the Qred-normalised Q instance "
-        "on the first two faces (instance independence of the definition is trusted, no transfer lemma). Exact flux is written -n.(K a) at matrix level and -(K n).a in model (A) "
-        "(equal for symmetric K, which the certificate checks). Float rounding is not covered: band "
-        "1e-9*(1+|exact|) inside Coq. The full matrices (all nonzero entries) are evaluated inside Coq; "
-        "bound_pressure_* rows are sent for boundary faces only (the property speaks of those). "
-        "3-D grids only in the thorough tier.")
+        "bookkeeping, block inversion, row scaling, hf2f averaging, sub-problem splitting). That link is "
+        "covered by certificate (i) on the real matrices (end result) and by certificate (ii) on the "
+        "captured local systems (the actual rows are satisfied by the constant gradient; the cell-centre "
+        "part of the right-hand side, -[0; pr_cont_cell], is re-assembled in the harness from the "
+        "captured SubcellTopology/ExcludeBoundaries objects the way mpfa.py does, the boundary part is "
+        "the code's own rhs_bound). NOT checked: that the rows have the geometric form of model (A), and "
+        "inv*A = I (invertibility of the local systems stays a hypothesis of C11_unique_exact; it is not "
+        "proved from SPD K and not certified per instance). The definitions are field-polymorphic; "
+        "theorems are proved at R and the certificates are executed with exact dyadic arithmetic on "
+        "(mantissa, exponent) pairs (no division occurs), cross-checked in every case against the "
+        "Qred-normalised Q instance on the first two faces (instance independence of the definitions is "
+        "trusted, no transfer lemma). Exact flux is written -n.(K a) at matrix level and -(K n).a in "
+        "model (A) (equal for symmetric K, which the certificate checks). Float rounding is not covered: "
+        "band 1e-9*(1+|exact|) inside Coq. The full matrices (all nonzero entries) are evaluated inside "
+        "Coq; bound_pressure_* rows are sent for boundary faces only (the property speaks of those). "
+        "Quick tier: 2-D grids up to 9 cells and a few 1-6 cell 3-D grids; larger 3-D grids only in the "
+        "thorough tier.")
     technique = ("Coq proof of the method (interaction-region algebra over R, linearity of the matrix "
                  "residual) + per-instance certificate evaluated by vm_compute over exact rationals "
                  "on the real MPFA matrices + numpy oracle")
     rule = ("grids: CartGrid (optionally stretched), StructuredTriangleGrid, Delaunay TriangleGrid of "
             "random lattice points; all nodes (boundary included) perturbed by random multiples of "
-            "1/64 in 70% of the cases; 3-D CartGrid/StructuredTetrahedralGrid in the thorough tier; "
+            "1/64 in 70% of the cases; 3-D CartGrid/StructuredTetrahedralGrid (10% quick with 1-6 cells, 35% thorough up to 12 cells); "
             "K = L L^T constant, small integer entries incl. off-diagonal terms; every boundary face "
             "independently Dirichlet or Neumann (also all-Dirichlet, all-Neumann); three random "
             "linear fields with small integer coefficients plus one constant field per case; "
@@ -190,6 +281,8 @@ class C11(Prop):
     trusted = ["geometry arrays (cell_centers, face_centers, face_normals), K, boundary flags/signs "
                "and the four matrices of the real run are passed to Coq as exact dyadic rationals"]
     assumptions = ["constant symmetric positive definite K (checked per instance in Coq)",
+                   "the code raises ValueError('Error in inversion of local linear systems') on an "
+                   "exactly singular local system (degenerate grid): recorded as result, nothing claimed",
                    "left inverse of the local systems (hypothesis of C11_unique_exact)",
                    "default eta, numba inverter, no partition of the discretization"]
 
@@ -220,7 +313,7 @@ class C11(Prop):
                 fields.append(a + [rng.randint(-4, 4)])
             fields.append([0, 0, 0, rng.randint(-5, 5)])
             yield {"grid": spec, "dim": dim, "K": spd_tensor(rng, dim), "dir": dirf,
-                   "fields": fields}
+                   "fields": fields, "local": rng.random() < 0.5}
 
     # ------------------------------------------------------------------ implementation
     _cache = (None, None)
@@ -245,7 +338,17 @@ class C11(Prop):
         g, K, perm, bc = self._setup(case)
         data = pp.initialize_data(g, {}, KW, {"second_order_tensor": perm, "bc": bc})
         discr = pp.Mpfa(KW)
-        discr.discretize(g, data)
+        with LocalCapture() as cap:
+            try:
+                discr.discretize(g, data)
+            except ValueError as e:
+                if "inversion of local linear systems" not in str(e):
+                    raise
+                # a local system is exactly singular (degenerate interaction region, e.g.
+                # collinear cell and boundary-face centres): the code refuses to discretize
+                return {"error": "singular-local-system", "nc": int(g.num_cells),
+                        "nf": int(g.num_faces)}
+        local = cap.local_systems() if case.get("local", True) else None
         md = data[pp.DISCRETIZATION_MATRICES][KW]
         bfaces = [int(f) for f in g.get_all_boundary_faces()]
         cf = g.cell_faces.tocsr()
@@ -254,7 +357,7 @@ class C11(Prop):
             s = int(cf[f].data[0])
             kinds[f] = s * (1 if bc.is_dir[f] else 2)
         return {"dim": int(g.dim), "nf": int(g.num_faces), "nc": int(g.num_cells),
-                "kinds": kinds,
+                "kinds": kinds, "local": local,
                 "flux": canon(md[discr.flux_matrix_key]),
                 "bound_flux": canon(md[discr.bound_flux_matrix_key]),
                 "bpc": canon(md[discr.bound_pressure_cell_matrix_key], bfaces),
@@ -262,6 +365,8 @@ class C11(Prop):
 
     # ------------------------------------------------------------------ oracle
     def oracle(self, case, res):
+        if res.get("error"):
+            return None  # no matrices were produced; nothing is claimed
         g, K, perm, bc = self._setup(case)
         nf, nc = res["nf"], res["nc"]
         flux = to_dense(res["flux"], (nf, nc))
@@ -314,15 +419,32 @@ class C11(Prop):
             zlist([pk(K[i, j]) for i in range(3) for j in range(3)]), zlist(res["kinds"], zi),
             dcoo(res["flux"]), dcoo(res["bound_flux"]), dcoo(res["bpc"]), dcoo(res["bpf"])))
 
+    def _local(self, res):
+        L = res["local"]
+        d = L["nd"]
+        arr = lambda key: np.array(L[key], dtype=float).T
+        K = np.array(L["K"], dtype=float)
+        inst = ("(mk_inst {} {} {} {} {} {} {} {} [] [])".format(
+            d, pts(arr("cc"), d), pts(arr("fc"), d), pts(arr("nr"), d),
+            zlist([pk(K[i, j]) for i in range(3) for j in range(3)]), zlist(res["kinds"], zi),
+            dcoo(L["RC"]), dcoo(L["RB"])))
+        return f"check_local {d} {zi(L['nrows'])} {zi(len(L['A']))} {inst} {dcoo(L['A'])}"
+
     def coq_case(self, case, res):
+        if res.get("error"):
+            return None
         nb = sum(1 for k in res["kinds"] if k != 0)
-        return f"check_case {zi(res['nf'])} {zi(nb)} {self._inst(case, res)}"
+        t = f"check_case {zi(res['nf'])} {zi(nb)} {self._inst(case, res)}"
+        if res.get("local"):
+            # certificate (ii): the captured local systems of the same run
+            t = f"andb ({t}) ({self._local(res)})"
+        return t
 
     def coq_diag(self, case, res):
         return f"diag_case {self._inst(case, res)}"
 
     def nontrivial(self, case, res):
-        return res["nc"] >= 2 and any(any(f[:3]) for f in case["fields"])
+        return not res.get("error") and res["nc"] >= 2 and any(any(f[:3]) for f in case["fields"])
 
     def finding_key(self, case, res, why):
         if why.startswith("constant pressure"):
